@@ -929,7 +929,7 @@ package stack
 //@   ensures [visitOrsPrimaryFlag C15] arg.IsPtr ==> (objects[arg.Value].inPrimary <==> (old(dom(objects, arg.Value) && objects[arg.Value].inPrimary) || primary))
 //@   ensures [visitLeavesOtherValues C15] forall v uint64 :: v != arg.Value ==> dom(objects, v) == old(dom(objects, v)) && objects[v].inPrimary == old(objects[v].inPrimary) && sameslice(objects[v].args, old(objects[v].args))
 
-//@ func (*Args).walk
+//@ func (*Args).walk@nameArguments
 //@   option assumed
 //@   option closure=visitor:nameArguments$1
 //@   requires a != nil && objects != nil && (forall v uint64 :: dom(objects, v) ==> len(objects[v].args) >= 1) && (forall v uint64, i int :: dom(objects, v) && 0 <= i && i < len(objects[v].args) ==> objects[v].args[i] != nil && objects[v].args[i].Value == v && objects[v].args[i].IsPtr)
